@@ -156,6 +156,26 @@ def run(ctx):
     # ---- R4 ----------------------------------------------------------------------------
     r4 = ctx.rule("C11.R4", "in get_next_file_transfer, under publish_mode == ObjectsBeingTransferred, transfer_started(..) is "
                             "always followed by Fdt::publish(..) before returning; publish queues an FDT instance", "PAIR under assumption")
+    auto_publish_rule(ctx, r4)
+    r4.floor(1, "transfer_started call in get_next_file_transfer")
+    # publish pushes to fdt_transfer_queue on every Ok path
+    h = prog.fn(FDT + "::publish")
+    ctx.analysed(h.path)
+    hflow = Flow(h.body)
+    pushes = set(s.bb for s in call_sites(h, lambda p, c: p.endswith("::push_back")) if "fdt_transfer_queue" in show(s.expr[2][0]))
+    oks = ret_assign_blocks(h.body, lambda e: is_variant(e, "Ok"))
+    for bb, e in oks:
+        ok, w = hflow.must_pass(0, [bb], lambda n: n[0] == "b" and n[1] in pushes)
+        if ok:
+            r4.ok("publish Ok => queued", "", loc(h.sp))
+        else:
+            r4.violation("publish Ok => queued", "Fdt::publish can return Ok without queueing an FDT instance", loc(h.sp))
+
+
+def auto_publish_rule(ctx, r4):
+    """being-transferred mode: every transfer start (first or carousel repeat) publishes an FDT listing the object (shared with C16.R5)"""
+    prog = ctx.prog
+    g = prog.fn(FDT + "::get_next_file_transfer")
     gflow2 = Flow(g.body)
 
     def contra2(fact):
@@ -177,19 +197,6 @@ def run(ctx):
             r4.ok(key, "", s.loc)
         else:
             r4.violation(key, "a transfer can start in being-transferred mode without publishing an FDT that lists it: %s" % path_text(g.body, w), s.loc)
-    r4.floor(1, "transfer_started call in get_next_file_transfer")
-    # publish pushes to fdt_transfer_queue on every Ok path
-    h = prog.fn(FDT + "::publish")
-    ctx.analysed(h.path)
-    hflow = Flow(h.body)
-    pushes = set(s.bb for s in call_sites(h, lambda p, c: p.endswith("::push_back")) if "fdt_transfer_queue" in show(s.expr[2][0]))
-    oks = ret_assign_blocks(h.body, lambda e: is_variant(e, "Ok"))
-    for bb, e in oks:
-        ok, w = hflow.must_pass(0, [bb], lambda n: n[0] == "b" and n[1] in pushes)
-        if ok:
-            r4.ok("publish Ok => queued", "", loc(h.sp))
-        else:
-            r4.violation("publish Ok => queued", "Fdt::publish can return Ok without queueing an FDT instance", loc(h.sp))
 
 
 def fdt_pending_gate(ctx, r2):
